@@ -300,6 +300,7 @@ def unit_emit_files(eng, shape):
         I.update(base=base, code=code, recs=recs)
 
         def c_open_device(e, path, mode):
+            # contract of devices.open_device (checked on the real function by C08 unit open_device-rac): a file object or IOError, nothing else
             k = pick(e, ["ok", "IOError"], "open_device")
             I["opened"].append((path, mode, k))
             if k == "IOError":
